@@ -2413,16 +2413,15 @@ Proof.
       assert (E' : dget d' (cstart c + HDR + x) = dget d1 (cstart c + HDR + x)).
       { apply F'. intros (c' & I' & Hx'). apply (pdisj_in c r PDall c' I' (cstart c + HDR + x)); auto. unfold in_ext, HDR in *. lia. }
       rewrite E', E1 by lia.
-      unfold over at 1. destruct (Z.leb_spec (sb + bw - base + btw) x), (Z.ltb_spec x (sb + bw - base + btw + lenZ (firstn (Z.to_nat m') (skipn (Z.to_nat btw) data)))); cbn [andb].
-      * (* cannot be: if more follows, this chunk was filled to its end *)
-        exfalso. assert (0 < m').
-        { destruct (Z.eq_dec m' 0) as [Z0|]; [|lia]. rewrite Z0 in H0. cbn [Z.to_nat firstn] in H0. rewrite lenZ_nil in H0. lia. }
-        unfold m', bw' in *. lia.
-      * unfold over. destruct ((sb + bw - base <=? x) && (x <? sb + bw - base + lenZ (firstn (Z.to_nat btw) data))); auto.
-        now rewrite absb_first by (fold cs; lia).
-      * unfold over. destruct ((sb + bw - base <=? x) && (x <? sb + bw - base + lenZ (firstn (Z.to_nat btw) data))); auto.
-        now rewrite absb_first by (fold cs; lia).
-      * lia.
+      assert (Outer : over (over (absb d (c :: r)) (sb + bw - base) (firstn (Z.to_nat btw) data)) (sb + bw - base + btw)
+                           (firstn (Z.to_nat m') (skipn (Z.to_nat btw) data)) x
+                      = over (absb d (c :: r)) (sb + bw - base) (firstn (Z.to_nat btw) data) x).
+      { destruct (Z.eq_dec m' 0) as [Z0|NZ].
+        - rewrite Z0. cbn [Z.to_nat firstn]. apply over_nil.
+        - assert (Hfull : sb + bw - base + btw = cs) by (unfold m', bw' in *; lia).
+          unfold over at 1. rewrite Hfull. destruct (Z.leb_spec cs x); [lia|]. reflexivity. }
+      rewrite Outer. unfold over. destruct ((sb + bw - base <=? x) && (x <? sb + bw - base + lenZ (firstn (Z.to_nat btw) data))); auto.
+      now rewrite absb_first by (fold cs; lia).
     + (* a byte of a later chunk *)
       rewrite absb_skip by (fold cs; lia). fold cs. rewrite A' by lia.
       assert (Eold : absb d1 r (x - cs) = absb d (c :: r) x).
